@@ -49,7 +49,12 @@ type KVTermCount struct {
 
 // NewIndex create new key value index
 func NewIndex(kv kvi.KVInterface) *KVIndex {
-	return &KVIndex{KV: kv, Fields: make(map[string][]string)}
+	idx := &KVIndex{KV: kv, Fields: make(map[string][]string)}
+	// fields registered before the store was last closed are still indexed
+	for _, path := range idx.ListFields() {
+		idx.Fields[path] = strings.Split(path, ".")
+	}
+	return idx
 }
 
 // AddField add new field to be indexed
